@@ -120,7 +120,10 @@ class Conformers(list):
             f"σ={std_dev_e:.6f} Ha"
         )
 
-        if isinstance(e_tol, Energy):
+        if e_tol is None:
+            e_tol = 0.0  # Only the high energy conformers are discarded
+
+        elif isinstance(e_tol, Energy):
             e_tol = float(e_tol.to("Ha"))
         else:
             logger.warning(
